@@ -34,7 +34,7 @@ def main():
     ap.add_argument("--seed", default="1")
     args = ap.parse_args()
     pid, var = args.pid.upper(), args.variant
-    src = args.src or f"/tmp/refactor_out/{pid}/{var}"
+    src = os.path.abspath(args.src) if args.src else f"/tmp/refactor_out/{pid}/{var}"
     dst = os.path.join(HERE, "seeded", "refactors", f"{pid}_{var}")
     if not os.path.exists(os.path.join(src, "patch.diff")):
         src = dst
